@@ -100,7 +100,7 @@ def fingerprint(case, results):
 # ---- known findings ----------------------------------------------------------------------
 def load_findings(prop):
     try:
-        with open(FINDINGS) as fp:
+        with open(os.environ.get("RSIM_FINDINGS") or FINDINGS) as fp:
             data = json.load(fp)
     except FileNotFoundError:
         return []
